@@ -453,7 +453,7 @@ fn main() {
     }
     let mut rng = Rng::new(seed_from_env());
     let langs: Vec<String> = if only.is_empty() { zoo::list() } else { only };
-    let docs_per_lang = if thorough { 60 } else { 16 };
+    let docs_per_lang = if thorough { 60 } else { 10 };
     let mut case_no = 0usize;
     for id in langs {
         let k = match get_lang(&id, &mut out, &mut loaded) {
